@@ -105,6 +105,7 @@ CONCRETISERS = {
     "http.Server).getCheckpoint": _READ,
     "http.Server).getLogs": _READ,
     "http.httpForCode": _READ,
+    "http.Server).RegisterHandlers": _READ,
     "http.Witness).GetLatestCheckpoint": _READ,
     "inmemory.inMemoryPersistence).Logs": _READ,
     "rest.Distributor).distributeForLog": _DIST,
